@@ -7,30 +7,34 @@ Local Open Scope N_scope.
 
 (* ---------------------------------------------------------------- logger *)
 Lemma c29_bounds_lemma : forall name rotnum append compress force d,
-  rotnum <= cap -> exists d', rotate name rotnum append compress force d = Ok d'.
+  exists d', rotate name rotnum append compress force d = Ok d'.
 Proof.
-  intros name rotnum append compress force d Hcap.
+  intros name rotnum append compress force d.
   destruct (rotates rotnum append force) eqn:Hrot.
-  - destruct (rotate_sem name rotnum append compress force d Hcap Hrot) as [d' [H _]]. eauto.
+  - destruct (rotate_sem name rotnum append compress force d Hrot) as [d' [H _]]. eauto.
   - rewrite (rotate_idle _ _ _ _ _ _ Hrot). eauto.
 Qed.
 
+Lemma rotates_of : forall rotnum append force,
+  0 < rotnum -> (append = false \/ force = true) -> rotates rotnum append force = true.
+Proof.
+  intros rotnum append force Hpos Hflag. unfold rotates. apply andb_true_iff.
+  split; [apply N.ltb_lt; exact Hpos|]. destruct Hflag as [->| ->]; [reflexivity|apply orb_true_r].
+Qed.
+
 Lemma c29_shift_lemma : forall name rotnum append compress force d d',
-  rotnum <= cap -> 0 < rotnum -> (append = false \/ force = true) ->
+  0 < rotnum -> (append = false \/ force = true) ->
   rotate name rotnum append compress force d = Ok d' ->
   lookup d' name = Some [] /\
-  forall k, 1 <= k <= rotnum ->
+  forall k, 1 <= k <= kept rotnum ->
     lookup d' (gen_log name compress k) =
     match lookup d (gen_log name compress (k - 1)) with
     | Some c => Some c
-    | None => if k =? rotnum then lookup d (gen_log name compress k) else None
+    | None => if k =? kept rotnum then lookup d (gen_log name compress k) else None
     end.
 Proof.
-  intros name rotnum append compress force d d' Hcap Hpos Hflag Hrun.
-  assert (Hrot : rotates rotnum append force = true).
-  { unfold rotates. apply andb_true_iff. split; [apply N.ltb_lt; exact Hpos|].
-    destruct Hflag as [->| ->]; [reflexivity|apply orb_true_r]. }
-  destruct (rotate_sem name rotnum append compress force d Hcap Hrot) as [d1 [H1 [Hf [Hch _]]]].
+  intros name rotnum append compress force d d' Hpos Hflag Hrun.
+  destruct (rotate_sem name rotnum append compress force d (rotates_of _ _ _ Hpos Hflag)) as [d1 [H1 [Hf [Hch _]]]].
   rewrite Hrun in H1. inversion H1; subst d1. split; [exact Hf|exact Hch].
 Qed.
 
@@ -40,10 +44,8 @@ Lemma c29_untouched_lemma : forall name rotnum append compress force d d',
 Proof.
   intros name rotnum append compress force d d' Hrun x Hx.
   destruct (rotates rotnum append force) eqn:Hrot.
-  - destruct (N.le_gt_cases rotnum cap) as [Hcap|Hcap].
-    + destruct (rotate_sem name rotnum append compress force d Hcap Hrot) as [d1 [H1 [_ [_ Hfr]]]].
-      rewrite Hrun in H1. inversion H1; subst d1. apply Hfr. rewrite <- (kept_le rotnum Hcap). exact Hx.
-    + rewrite (rotate_oob name rotnum append compress force d Hcap Hrot) in Hrun. discriminate Hrun.
+  - destruct (rotate_sem name rotnum append compress force d Hrot) as [d1 [H1 [_ [_ Hfr]]]].
+    rewrite Hrun in H1. inversion H1; subst d1. apply Hfr. exact Hx.
   - rewrite (rotate_idle _ _ _ _ _ _ Hrot) in Hrun. inversion Hrun; subst d'.
     assert (x <> name) by (apply (Hx 0); lia).
     destruct append; [rewrite lookup_open_app|rewrite lookup_open_trunc];
@@ -74,29 +76,29 @@ Qed.
 
 (* ---------------------------------------------------------------- store *)
 Lemma c29_store_bounds_lemma : forall name rotnum purge d,
-  rotnum <= cap -> exists d', initialise name rotnum purge d = Ok d'.
+  exists d', initialise name rotnum purge d = Ok d'.
 Proof.
-  intros name rotnum purge d Hcap.
-  destruct (step_init_ok (mkcfg name rotnum false false) purge d Hcap) as [d' [H _]]. eauto.
+  intros name rotnum purge d.
+  destruct (step_init_ok (mkcfg name rotnum false false) purge d) as [d' [H _]]. eauto.
 Qed.
 
 Lemma c29_store_shift_lemma : forall name rotnum d d',
-  rotnum <= cap -> 0 < rotnum -> initialise name rotnum true d = Ok d' ->
+  0 < rotnum -> initialise name rotnum true d = Ok d' ->
   lookup d' name = Some [] /\ lookup d' (name ++ ["."; "i"; "d"; "x"])%list = Some [] /\
-  forall k, 1 <= k <= rotnum ->
+  forall k, 1 <= k <= kept rotnum ->
     lookup d' (gen_db name k) =
       match lookup d (gen_db name (k - 1)) with
       | Some c => Some c
-      | None => if k =? rotnum then lookup d (gen_db name k) else None
+      | None => if k =? kept rotnum then lookup d (gen_db name k) else None
       end /\
     lookup d' (gen_idx name k) =
       match lookup d (gen_idx name (k - 1)) with
       | Some c => Some c
-      | None => if k =? rotnum then lookup d (gen_idx name k) else None
+      | None => if k =? kept rotnum then lookup d (gen_idx name k) else None
       end.
 Proof.
-  intros name rotnum d d' Hcap Hpos Hrun.
-  destruct (initialise_sem name rotnum d Hcap Hpos) as [d1 [H1 [Hf1 [Hf2 [Cd [Ci _]]]]]].
+  intros name rotnum d d' Hpos Hrun.
+  destruct (initialise_sem name rotnum d Hpos) as [d1 [H1 [Hf1 [Hf2 [Cd [Ci _]]]]]].
   rewrite Hrun in H1. inversion H1; subst d1.
   split; [exact Hf1|]. split; [exact Hf2|]. intros k Hk. split; [apply Cd|apply Ci]; exact Hk.
 Qed.
@@ -111,38 +113,34 @@ Proof.
   destruct Hn as [Hn1 Hn2].
   destruct purge.
   - destruct (N.ltb_spec 0 rotnum) as [Hpos|Hz].
-    + destruct (N.le_gt_cases rotnum cap) as [Hcap|Hcap].
-      * destruct (initialise_sem name rotnum d Hcap Hpos) as [d1 [H1 [_ [_ [_ [_ Hfr]]]]]].
-        rewrite Hrun in H1. inversion H1; subst d1. apply Hfr. rewrite <- (kept_le rotnum Hcap). exact Hx.
-      * rewrite (initialise_oob name rotnum d Hcap) in Hrun. discriminate Hrun.
+    + destruct (initialise_sem name rotnum d Hpos) as [d1 [H1 [_ [_ [_ [_ Hfr]]]]]].
+      rewrite Hrun in H1. inversion H1; subst d1. apply Hfr. exact Hx.
     + assert (rotnum = 0) by lia. subst rotnum.
-      unfold initialise in Hrun. rewrite orb_true_r in Hrun. cbn [andb N.ltb N.compare res_map] in Hrun.
+      unfold initialise, initialise_gen in Hrun. rewrite orb_true_r in Hrun.
+      cbn [andb N.ltb N.compare res_map] in Hrun.
       inversion Hrun; subst d'. rewrite lookup_open2, !str_eqb_neq by congruence. reflexivity.
-  - unfold initialise in Hrun. destruct (lookup d name); cbn [orb andb res_map] in Hrun;
+  - unfold initialise, initialise_gen in Hrun. destruct (lookup d name); cbn [orb andb res_map] in Hrun;
       inversion Hrun; subst d'; [reflexivity|].
     rewrite lookup_open2, !str_eqb_neq by congruence. reflexivity.
 Qed.
 
-(* ---------------------------------------------------------------- out of bounds *)
+(* ---------------------------------------------------------------- before the repair *)
 Definition w_log : str := ["l"; "o"; "g"].
 Definition w_db : str := ["d"; "b"].
 
-Lemma c29_oob_refuted_lemma :
-  exists rotnum d, cap < rotnum /\
-    rotate w_log rotnum false false false d = OOB /\ initialise w_db rotnum true d = OOB /\
-    c29_ok (mkcfg w_log rotnum false false) d [OpRotate false]
-           (run (mkcfg w_log rotnum false false) [OpRotate false] d) = false.
+Lemma c29_oob_orig_refuted_lemma :
+  (exists rotnum d, rotate_orig w_log rotnum false false false d = OOB /\
+                    initialise_orig w_db rotnum true d = OOB) /\
+  (forall name rotnum append compress force d, cap < rotnum ->
+     (append = false \/ force = true) -> rotate_orig name rotnum append compress force d = OOB) /\
+  (forall name rotnum d, cap < rotnum -> initialise_orig name rotnum true d = OOB).
 Proof.
-  exists 1025, [(w_log, ["G"; "0"])]. split; [reflexivity|].
-  split; [apply rotate_oob; reflexivity|]. split; [apply initialise_oob; reflexivity|].
-  rewrite (oob_all (mkcfg w_log 1025 false false) [OpRotate false] _); reflexivity.
-Qed.
-
-Lemma c29_oob_all_lemma : forall c ops d, cap < c_rotnum c ->
-  existsb (effective c) ops = true ->
-  run c ops d = Died /\ c29_ok c d ops (run c ops d) = false.
-Proof.
-  intros c ops d Hcap He. rewrite (oob_all c ops d Hcap He). split; reflexivity.
+  split; [|split].
+  - exists 1025, [(w_log, ["G"; "0"])].
+    split; [apply rotate_orig_oob; reflexivity|apply initialise_orig_oob; reflexivity].
+  - intros name rotnum append compress force d Hcap Hflag. apply rotate_orig_oob; [exact Hcap|].
+    apply rotates_of; [unfold cap in Hcap; lia|exact Hflag].
+  - intros. apply initialise_orig_oob. assumption.
 Qed.
 
 (* ---------------------------------------------------------------- non-vacuity *)
@@ -151,7 +149,7 @@ Definition nv_dir : dir :=
     (w_log ++ ["."; "3"], ["C"]); (w_log ++ ["."; "4"], ["D"]); (["o"; "t"; "h"; "e"; "r"], ["X"]) ]%list.
 
 Lemma c29_nonvacuous_lemma :
-  3 <= cap /\ 0 < 3 /\
+  0 < 3 /\ kept 3 = 3 /\ kept 1025 = 1024 /\
   (forall x, In x [w_log; (w_log ++ ["."; "1"]); (w_log ++ ["."; "2"]); (w_log ++ ["."; "3"]);
                    (w_log ++ ["."; "4"]); ["o"; "t"; "h"; "e"; "r"]]%list ->
      match rotate w_log 3 false false false nv_dir with
@@ -161,10 +159,21 @@ Lemma c29_nonvacuous_lemma :
                   (["o"; "t"; "h"; "e"; "r"], ["X"]) ]%list x
      | _ => False
      end) /\
+  (forall x, In x [w_log; (w_log ++ ["."; "1"]); (w_log ++ ["."; "2"]); (w_log ++ ["."; "3"]);
+                   (w_log ++ ["."; "4"]); (w_log ++ ["."; "5"]); ["o"; "t"; "h"; "e"; "r"]]%list ->
+     match rotate w_log 1025 false false false nv_dir with
+     | Ok d' => lookup d' x =
+         lookup [ (w_log, []); (w_log ++ ["."; "1"], ["A"]); (w_log ++ ["."; "2"], ["B"]);
+                  (w_log ++ ["."; "3"], ["E"]); (w_log ++ ["."; "4"], ["C"]); (w_log ++ ["."; "5"], ["D"]);
+                  (["o"; "t"; "h"; "e"; "r"], ["X"]) ]%list x
+     | _ => False
+     end) /\
   c29_ok (mkcfg w_log 3 false false) nv_dir [OpRotate false; OpWrite ["w"]; OpRotate true]
          (run (mkcfg w_log 3 false false) [OpRotate false; OpWrite ["w"]; OpRotate true] nv_dir) = true.
 Proof.
-  split; [unfold cap; lia|]. split; [lia|]. split.
+  split; [lia|]. split; [reflexivity|]. split; [reflexivity|]. split; [|split].
+  - intros x Hx. cbn [In] in Hx.
+    repeat (destruct Hx as [<-|Hx]; [vm_compute; reflexivity|]). destruct Hx.
   - intros x Hx. cbn [In] in Hx.
     repeat (destruct Hx as [<-|Hx]; [vm_compute; reflexivity|]). destruct Hx.
   - vm_compute. reflexivity.
